@@ -187,3 +187,123 @@ fn c03_zeta_step_f64() {
     kani::cover!(rng.i >= 1, "an iteration returns");
     kani::assert(x >= 1.0, "Zeta value below 1 or NaN");
 }
+
+// ---------------------------------------------------------------- samplers built on a ziggurat draw (one ziggurat iteration)
+/// Exp(lambda): lambda = 0 gives +inf (documented), lambda > 0 in E gives a value that is > 0 ... never NaN, never negative.
+/// One iteration of the ziggurat loop (bounded); the known Exp1 tail witness (uniform exactly 0) is excluded.
+#[kani::proof]
+#[kani::unwind(1)]
+#[kani::stub(f64::exp, lc::exp)]
+#[kani::stub(f64::ln, lc::log)]
+fn c03_exp_sample_f64() {
+    let lambda: f64 = kani::any();
+    kani::assume(lambda == 0.0 && lambda.is_sign_positive() || (lambda >= 1e-100 && lambda <= 1e100));
+    let d = rd::Exp::<f64>::new(lambda).unwrap();
+    let mut rng = WordsRng::<4>::any();
+    kani::assume(!((rng.w[0] & 0xff) == 0 && (rng.w[1] >> 11) == 0));
+    let x: f64 = d.sample(&mut rng);
+    kani::cover!(lambda == 0.0, "rate 0 reachable");
+    kani::cover!(lambda > 0.0, "positive rate reachable");
+    kani::assert(!x.is_nan(), "Exp sample is NaN");
+    kani::assert(x >= 0.0, "Exp sample negative");
+    if lambda == 0.0 { kani::assert(x == f64::INFINITY, "Exp(0) is +inf as documented"); } else { kani::assert(x.is_finite(), "Exp(lambda > 0) sample not finite"); }
+}
+
+/// Normal(mean, std_dev) in E (std_dev of either sign): one ziggurat iteration / one tail iteration: never NaN, finite.
+#[kani::proof]
+#[kani::unwind(1)]
+#[kani::stub(f64::exp, lc::exp)]
+#[kani::stub(f64::ln, lc::log)]
+fn c03_normal_sample_f64() {
+    let mean: f64 = kani::any(); let sd: f64 = kani::any();
+    kani::assume(mean.abs() <= 1e100 && sd.abs() <= 1e100);
+    let d = rd::Normal::<f64>::new(mean, sd).unwrap();
+    let mut rng = WordsRng::<4>::any();
+    let x: f64 = d.sample(&mut rng);
+    kani::cover!(rng.i >= 1, "a ziggurat iteration returns");
+    kani::assert(x.is_finite(), "Normal sample not finite");
+}
+
+// ---------------------------------------------------------------- composite samplers: one iteration of every loop on the path
+// (each rejection loop and the ziggurat loop inside it run their body once; bounded units).  Only what follows from
+// signs, special values and the libm contracts is asserted.
+macro_rules! composite {
+    ($name:ident, |$rng:ident| $body:block) => {
+        #[kani::proof]
+        #[kani::unwind(1)]
+        #[kani::stub(f64::exp, lc::exp)]
+        #[kani::stub(f64::ln, lc::log)]
+        #[kani::stub(libm::exp, lc::exp)]
+        #[kani::stub(libm::log, lc::log)]
+        #[kani::stub(libm::pow, lc::pow)]
+        #[kani::stub(libm::sqrt, lc::sqrt_c)]
+        #[kani::stub(libm::floor, lc::floor)]
+        fn $name() { let mut $rng = WordsRng::<8>::any(); $body }
+    };
+}
+
+composite!(c03_lognormal_sample_f64, |rng| {
+    let (mu, sigma): (f64, f64) = (kani::any(), kani::any());
+    kani::assume(mu.abs() <= 1e100 && sigma.abs() <= 1e100);
+    let x: f64 = rd::LogNormal::<f64>::new(mu, sigma).unwrap().sample(&mut rng);
+    kani::cover!(rng.i >= 1, "returns");
+    kani::assert(!x.is_nan() && x >= 0.0, "LogNormal sample negative or NaN");
+});
+
+composite!(c03_skew_normal_sample_f64, |rng| {
+    let (loc, scale, shape): (f64, f64, f64) = (kani::any(), kani::any(), kani::any());
+    kani::assume(loc.abs() <= 1e100 && scale >= 1e-100 && scale <= 1e100 && shape.abs() <= 1e4);
+    let x: f64 = rd::SkewNormal::<f64>::new(loc, scale, shape).unwrap().sample(&mut rng);
+    kani::cover!(rng.i >= 2, "general-shape branch returns");
+    kani::assert(!x.is_nan(), "SkewNormal sample is NaN");
+});
+
+composite!(c03_gamma_sample_f64, |rng| {
+    let (shape, scale): (f64, f64) = (kani::any(), kani::any());
+    kani::assume(shape >= 1e-3 && shape <= 1e4 && scale >= 1e-100 && scale <= 1e100);
+    let x: f64 = rd::Gamma::<f64>::new(shape, scale).unwrap().sample(&mut rng);
+    kani::cover!(shape < 1.0, "small-shape branch returns");
+    kani::cover!(shape > 1.0, "large-shape branch returns");
+    kani::assert(!x.is_nan() && x >= 0.0, "Gamma sample negative or NaN");
+});
+
+composite!(c03_chi_squared_sample_f64, |rng| {
+    let k: f64 = kani::any();
+    kani::assume(k >= 1e-3 && k <= 1e4);
+    let x: f64 = rd::ChiSquared::<f64>::new(k).unwrap().sample(&mut rng);
+    kani::cover!(k == 1.0, "k = 1 branch returns");
+    kani::assert(!x.is_nan() && x >= 0.0, "ChiSquared sample negative or NaN");
+});
+
+composite!(c03_beta_sample_f64, |rng| {
+    let (a, b): (f64, f64) = (kani::any(), kani::any());
+    kani::assume(a >= 1e-3 && a <= 1e4 && b >= 1e-3 && b <= 1e4);
+    let x: f64 = rd::Beta::<f64>::new(a, b).unwrap().sample(&mut rng);
+    kani::cover!(a > 1.0 && b > 1.0, "BB branch returns");
+    kani::cover!(a < 1.0, "BC branch returns");
+    kani::assert(!x.is_nan() && x >= 0.0 && x <= 1.0, "Beta sample outside [0, 1] or NaN");
+});
+
+
+
+composite!(c03_poisson_sample_f64, |rng| {
+    let lambda: f64 = kani::any();
+    kani::assume(lambda >= 1e-3 && lambda <= 1e15);
+    let x: f64 = rd::Poisson::<f64>::new(lambda).unwrap().sample(&mut rng);
+    kani::cover!(lambda < 12.0, "Knuth branch returns");     // the rejection method (lambda >= 12) has inner loops that one iteration does not leave
+    kani::assert(!x.is_nan() && x >= 0.0, "Poisson sample negative or NaN");
+});
+
+
+
+
+
+composite!(c03_pert_sample_f64, |rng| {
+    let (min, max, mode): (f64, f64, f64) = (kani::any(), kani::any(), kani::any());
+    kani::assume(min.abs() <= 1e100 && max.abs() <= 1e100 && max > min && mode >= min && mode <= max && max - min >= 1e-100);
+    let x: f64 = rd::Pert::<f64>::new(min, max).with_mode(mode).unwrap().sample(&mut rng);
+    kani::cover!(rng.i >= 2, "returns");
+    kani::assert(!x.is_nan() && x >= min, "Pert sample below min or NaN");
+});
+
+
